@@ -51,7 +51,7 @@ variable {σ α β : Type}
 theorem runM_block_cons {V : Type} (w : World (SM σ) V) (loc : Locals V) (s : Stmt) (rest : List Stmt) (st : σ) :
     runM (evalBlock w loc (s :: rest)) st = match runM (evalStmt w loc s) st with
       | (.ok (.next, loc'), st') => runM (evalBlock w loc' rest) st'
-      | (.ok (.ret v, loc'), st') => (.ok (.ret v, loc'), st')
+      | (.ok (c, loc'), st') => (.ok (c, loc'), st')
       | (.error e, st') => (.error e, st') := by
   rw [evalBlock, runM_bind]
   rcases runM (evalStmt w loc s) st with ⟨r, st'⟩
@@ -68,8 +68,8 @@ theorem runM_block_cons {V : Type} (w : World (SM σ) V) (loc : Locals V) (s : S
 /-- the value a function call produces, from the run of its body -/
 theorem runM_func {V : Type} (w : World (SM σ) V) (f : Func) (args : Locals V) (st : σ) :
     runM (f.run w args) st = match runM (evalBlock w args f.body) st with
-      | (.ok (.next, _), st') => (.ok w.none, st')
       | (.ok (.ret v, _), st') => (.ok v, st')
+      | (.ok (_, _), st') => (.ok w.none, st')
       | (.error e, st') => (.error e, st') := by
   rw [Func.run, runM_bind]
   rcases runM (evalBlock w args f.body) st with ⟨r, st'⟩
@@ -158,6 +158,57 @@ theorem stOut_forLoop {V : Type} (Inv : Locals V → Prop) (step : V → σ → 
   | none => rw [hf] at h; obtain ⟨e, st', he⟩ := h; simp [stOut, he]
   | some st' => rw [hf] at h; obtain ⟨loc', he, _⟩ := h; simp [stOut, he]
 
+/-- a pass of a loop body that lets the loop go on: it fell through or executed `continue` -/
+def Ctl.goesOn {V : Type} : Ctl V → Bool
+  | .next => true
+  | .cont => true
+  | _ => false
+
+/-- `runM_forLoop` for bodies that may `continue` -/
+theorem runM_forLoopC {V : Type} (Inv : Locals V → Prop) (step : V → σ → Option σ)
+    (body : Locals V → V → SM σ (Ctl V × Locals V)) :
+    ∀ (xs : List V) (loc : Locals V) (st : σ),
+      (∀ loc x st, x ∈ xs → Inv loc →
+        match step x st with
+        | some st' => ∃ c loc', runM (body loc x) st = (.ok (c, loc'), st') ∧ c.goesOn = true ∧ Inv loc'
+        | none => ∃ e st', runM (body loc x) st = (.error e, st')) →
+      Inv loc →
+      match xs.foldlM (fun st x => step x st) st with
+      | some st' => ∃ loc', runM (forLoop body xs loc) st = (.ok (.next, loc'), st') ∧ Inv loc'
+      | none => ∃ e st', runM (forLoop body xs loc) st = (.error e, st')
+  | [], loc, st, _, hinv => by
+    simp only [List.foldlM_nil, forLoop]
+    exact ⟨loc, rfl, hinv⟩
+  | x :: xs, loc, st, hbody, hinv => by
+    have hb := hbody loc x st (List.mem_cons_self) hinv
+    simp only [List.foldlM_cons, forLoop, runM_bind]
+    cases hs : step x st with
+    | none =>
+      rw [hs] at hb
+      obtain ⟨e, st', he⟩ := hb
+      simp only [Option.bind_eq_bind, Option.bind_none, he]
+      exact ⟨e, st', rfl⟩
+    | some st1 =>
+      rw [hs] at hb
+      obtain ⟨c, loc1, h1, hc, hinv1⟩ := hb
+      have ih := runM_forLoopC Inv step body xs loc1 st1
+        (fun loc y st hy => hbody loc y st (List.mem_cons_of_mem _ hy)) hinv1
+      cases c <;> simp [Ctl.goesOn] at hc <;> simpa only [Option.bind_eq_bind, Option.bind_some, h1] using ih
+
+/-- equation form -/
+theorem stOut_forLoopC {V : Type} (Inv : Locals V → Prop) (step : V → σ → Option σ)
+    (body : Locals V → V → SM σ (Ctl V × Locals V)) (xs : List V) (loc : Locals V) (st : σ)
+    (hbody : ∀ loc x st, x ∈ xs → Inv loc →
+      match step x st with
+      | some st' => ∃ c loc', runM (body loc x) st = (.ok (c, loc'), st') ∧ c.goesOn = true ∧ Inv loc'
+      | none => ∃ e st', runM (body loc x) st = (.error e, st'))
+    (hinv : Inv loc) :
+    stOut (runM (forLoop body xs loc) st) = xs.foldlM (fun st x => step x st) st := by
+  have h := runM_forLoopC Inv step body xs loc st hbody hinv
+  cases hf : xs.foldlM (fun st x => step x st) st with
+  | none => rw [hf] at h; obtain ⟨e, st', he⟩ := h; simp [stOut, he]
+  | some st' => rw [hf] at h; obtain ⟨loc', he, _⟩ := h; simp [stOut, he]
+
 /-- a function whose body is one statement that does not return a value early -/
 theorem stOut_func_single {V : Type} (w : World (SM σ) V) (params : List String) (s : Stmt) (args : Locals V) (st : σ) :
     stOut (runM (Func.run w ⟨params, [s]⟩ args) st) = stOut (runM (evalStmt w args s) st) := by
@@ -181,7 +232,7 @@ theorem stOut_func_single {V : Type} (w : World (SM σ) V) (params : List String
 theorem exc_block_cons {V : Type} (w : World (Except String) V) (loc : Locals V) (s : Stmt) (rest : List Stmt) :
     evalBlock w loc (s :: rest) = match evalStmt w loc s with
       | .ok (.next, loc') => evalBlock w loc' rest
-      | .ok (.ret v, loc') => .ok (.ret v, loc')
+      | .ok (c, loc') => .ok (c, loc')
       | .error e => .error e := by
   rw [evalBlock]
   cases evalStmt w loc s with
@@ -196,8 +247,8 @@ theorem exc_block_cons {V : Type} (w : World (Except String) V) (loc : Locals V)
 
 theorem exc_func {V : Type} (w : World (Except String) V) (f : Func) (args : Locals V) :
     f.run w args = match evalBlock w args f.body with
-      | .ok (.next, _) => .ok w.none
       | .ok (.ret v, _) => .ok v
+      | .ok (_, _) => .ok w.none
       | .error e => .error e := by
   rw [Func.run]
   cases evalBlock w args f.body with
